@@ -58,15 +58,15 @@ LOOKUP_LEAN = '''/-- `ConfigService(custom).<name>` in an interpreter started un
     object `ConfigService.__init__` builds (checked shape: the dict given is stored as `self.__custom`, `None`
     becomes `{}` — so `self.__custom` is never `None`). -/
 def lookup (custom : List (String × CVal)) (env : Env) (execPrefix : String) (name : String) : CVal :=
-  getAttribute (some custom) env execPrefix name
+  getAttribute ownStatic (some custom) env execPrefix name
 '''
 
-OWN_LEAN = '''/-- `super().__getattribute__(name)`: `some` = the object has the attribute of its own (value opaque here),
-    `none` = AttributeError -/
-def ownAttr (name : String) : Option CVal :=
-  if ownNames.contains name then some (.other ("own attribute " ++ name)) else none
+OWN_LEAN = '''/-- `super().__getattribute__(name)` on the object as `ConfigService.__init__` leaves it, with every property getter
+    returning: `.value` (opaque) for the names the object has of its own (static table `ownNames`), AttributeError for
+    every other name.  (An object whose getters fail, or with attributes set later, is another `own` function.) -/
+def ownStatic (name : String) : OwnOut :=
+  if ownNames.contains name then .value (.other ("own attribute " ++ name)) else .attributeError
 '''
-
 
 START_LEAN = '''/-- the custom dict `deep.start(config)` hands to `ConfigService` — reading of the checked shape: when the dict has
     no APP_ROOT entry one is added, `DEEP_APP_ROOT` when set and non-empty, else the calculated root `calcRoot`. -/
@@ -186,7 +186,9 @@ def getattr_hook(tr, s, rest, k):
             x = s.body[0].targets[0].id
             after = tr.block(rest, k)
             h = tr.block(list(s.handlers[0].body), after)
-            return (f'match ownAttr name with\n| some {x} =>\n{_ind(after)}\n| none =>\n{_ind(h)}')
+            # a value: the try body completed; AttributeError: the handler; anything else propagates to the caller
+            return (f'match own name with\n| .value {x} =>\n{_ind(after)}\n| .attributeError =>\n{_ind(h)}\n'
+                    f'| .raises =>\n{_ind('(CVal.other "raises")')}')
         raise Untranslatable('try statement of __getattribute__: ' + ast.unparse(s)[:80])
     if isinstance(s, ast.ImportFrom):
         # from deep import config  — names the module object the hasattr/getattr calls are about
@@ -217,10 +219,11 @@ def getattribute_function(fdef):
     from pylean_res import assigned_names
     tr.locals_called = set(assigned_names(strip_doc(fdef.body)))
     return ('/-- `ConfigService.__getattribute__(self, name)`, statement by statement.  `custom` = `self.__custom`\n'
-            '    (`none` = Python `None`), `ownAttr` = `super().__getattribute__` (`none` = AttributeError),\n'
+            '    (`none` = Python `None`), `own` = the outcome of `super().__getattribute__` (value / AttributeError /\n'
+            '    another exception, which propagates: result `CVal.other "raises"`),\n'
             '    `moduleValue env execPrefix` = the attributes of the `deep.config` module imported under `env`,\n'
             '    `getenv env` = `os.getenv`; `CVal.isCallable` / `CVal.call` = `callable(x)` / `x()`. -/\n' +
-            tr.function(fdef, 'def getAttribute (custom : Option (List (String × CVal))) (env : Env) '
+            tr.function(fdef, 'def getAttribute (own : String → OwnOut) (custom : Option (List (String × CVal))) (env : Env) '
                               '(execPrefix : String) (name : String) : CVal'))
 
 
@@ -240,7 +243,7 @@ def generate():
              'namespace Extracted.Config\nopen Cfg\n']
 
     # ---- deep.config module: settings, functions, other names
-    defaults, funcs, others = [], [], []
+    defaults, funcs, others, classes = [], [], [], []
     for n in cfg.body:
         if isinstance(n, ast.Expr) and isinstance(n.value, ast.Constant):
             continue
@@ -248,6 +251,15 @@ def generate():
             others += [(a.asname or a.name).split('.')[0] for a in n.names]
         elif isinstance(n, ast.ImportFrom):
             others += [a.asname or a.name for a in n.names]
+            if n.level == 1 and n.module:
+                # names imported from a sibling module that are CLASSES there: callable module attributes
+                try:
+                    sib = load(os.path.join(os.path.dirname(CFG), n.module + '.py'))
+                    for a in n.names:
+                        if any(isinstance(x, ast.ClassDef) and x.name == a.name for x in sib.body):
+                            classes.append(a.asname or a.name)
+                except OSError:
+                    pass
             if n.level == 1 and n.module:
                 others.append(n.module)
         elif isinstance(n, ast.Assign) and len(n.targets) == 1 and isinstance(n.targets[0], ast.Name):
@@ -274,6 +286,8 @@ def generate():
     parts.append('/-- other attributes of the module object (imports, sub-modules) -/\n'
                  'def moduleOtherNames : List String := [' + ', '.join(lean_str(o) for o in sorted(set(
                      others + ['config_service', 'tracepoint_config'] + MODULE_DUNDERS))) + ']\n')
+    parts.append('/-- module attributes that are classes (callable: `__getattribute__` CALLS them and hands out the instance) -/\n'
+                 'def moduleClassNames : List String := [' + ', '.join(lean_str(c) for c in sorted(set(classes))) + ']\n')
     parts.append('''/-- `getattr(deep.config, name)` in an interpreter started under `env` (`none` = no such attribute) -/
 def moduleValue (env : Env) (execPrefix : String) (name : String) : Option CVal :=
   match moduleDefaults.find? (fun d => d.1 == name) with
@@ -284,7 +298,9 @@ def moduleValue (env : Env) (execPrefix : String) (name : String) : Option CVal 
   | none =>
     match moduleFunctions.find? (fun f => f.1 == name) with
     | some (_, f) => some (.callable (f env execPrefix))
-    | none => if moduleOtherNames.contains name then some (.other ("module attribute " ++ name)) else none
+    | none =>
+      if moduleClassNames.contains name then some (.callable (.other ("instance of " ++ name)))
+      else if moduleOtherNames.contains name then some (.other ("module attribute " ++ name)) else none
 ''')
 
     # ---- ConfigService: own names, __init__, __getattribute__
